@@ -177,6 +177,8 @@ namespace hgraph
             std::vector<std::size_t> structural_positions{};
             std::size_t              resume_candidate_plus_one{0};
             bool                     has_future_combiner_schedule{false};
+            // Earliest future wake-up seen among the combiners swept in the current evaluation (kept across a pause).
+            DateTime                 earliest_combiner_schedule{MAX_DT};
         };
 
         struct ReduceCollectionOps
@@ -1322,6 +1324,7 @@ namespace hgraph
             const bool resuming = storage.resume_candidate_plus_one != 0;
             if (!resuming)
             {
+                storage.earliest_combiner_schedule = MAX_DT;
                 storage.destroy_previous_generation_before(evaluation_time);
                 const bool rebuilt = reduce_reconcile(view, context, storage, evaluation_time);
                 prepare_reduce_evaluation_positions(view, context, storage, evaluation_time, rebuilt);
@@ -1356,8 +1359,15 @@ namespace hgraph
                 if (const DateTime next = child.next_scheduled_time(); next != MAX_DT && next > evaluation_time)
                 {
                     storage.has_future_combiner_schedule = true;
+                    storage.earliest_combiner_schedule = std::min(storage.earliest_combiner_schedule, next);
                     view.graph().schedule_node(view.node_index(), next);
                 }
+            }
+            // A combiner swept after that re-arm may have published to an idle parent combiner, which schedules this
+            // node for the current time and thereby replaces the future slot: ask again once the sweep is over.
+            if (storage.earliest_combiner_schedule != MAX_DT)
+            {
+                view.graph().schedule_node(view.node_index(), storage.earliest_combiner_schedule);
             }
             storage.resume_candidate_plus_one = 0;
             storage.evaluation_positions.clear();
